@@ -414,7 +414,7 @@ def run_trained(rec, seed, shard, nshards, tier):
 def run_large(rec, seed, shard, nshards, tier):
     """Scale: files with more than 1000 / 2000 / 5000 lines through the real writer and both real loaders."""
     from .c03 import word
-    for n in ({'quick': [999, 1000, 1001, 2001], 'thorough': [999, 1000, 1001, 1999, 2000, 2001, 4097, 10001]}[tier]):
+    for n in ({'quick': [999, 1000, 1001, 2001, 40001], 'thorough': [999, 1000, 1001, 1999, 2000, 2001, 4097, 10001, 40001, 70001, 160001]}[tier]):   # the largest: a list of more than 4 MiB
         vals = [word(i + 3, 6) for i in range(n)]
         case = {'values_count': n, 'encoding': 'utf-8'}
         bad = find_bad(vals, 'utf-8', case)
